@@ -69,6 +69,12 @@ def _is_simple(e):
 def _is_const_expr(e):
     if isinstance(e, ast.Constant):
         return True
+    if isinstance(e, (ast.DictComp, ast.ListComp)) and len(e.generators) == 1 and not e.generators[0].ifs and not e.generators[0].is_async \
+            and _is_const_expr(e.generators[0].iter) and not _has(e, (ast.Call,)) or (
+            isinstance(e, (ast.DictComp, ast.ListComp)) and len(e.generators) == 1 and not e.generators[0].ifs
+            and isinstance(e.generators[0].iter, (ast.Tuple, ast.List)) and all(_is_const_expr(x) for x in e.generators[0].iter.elts)
+            and not any(isinstance(c, ast.Call) for part in ([e.key, e.value] if isinstance(e, ast.DictComp) else [e.elt]) for c in ast.walk(part))):
+        return True
     if isinstance(e, (ast.Name,)):
         return True
     if isinstance(e, ast.Attribute):
@@ -82,6 +88,9 @@ def _is_const_expr(e):
     if isinstance(e, ast.Dict):
         return all(k is not None and _is_const_expr(k) for k in e.keys) and all(_is_const_expr(v) for v in e.values)
     if isinstance(e, ast.Call):
+        from . import records
+        if records.RECORDS is not None and records.RECORDS.info_of_call(e) is not None:
+            return all(_is_const_expr(a) for a in e.args) and all(k.arg is not None and _is_const_expr(k.value) for k in e.keywords)
         # constructors of immutable values: datetime.datetime(1900, 1, 1), frozenset((..)), bytes(..), int(..)
         f = ast.unparse(e.func)
         if f in ("datetime.datetime", "datetime", "datetime.date", "datetime.timedelta", "timedelta", "frozenset",
@@ -301,6 +310,23 @@ class Normalizer:
             return None
         if isinstance(f, ast.Attribute):
             recv = f.value
+            from . import records as _rec
+            R_ = _rec.RECORDS
+            rinfo = None
+            if R_ is not None and isinstance(recv, ast.Call):
+                rinfo = R_.info_of_call(recv)
+            elif R_ is not None and isinstance(recv, ast.Name) and recv.id in getattr(self, "_record_locals", {}):
+                rinfo = self._record_locals[recv.id]
+            if rinfo is not None and rinfo.ci is not None:
+                m_ = rinfo.ci.find_method(f.attr)
+                if m_ is not None and f.attr not in m_[0].props:
+                    owner, node = m_
+                    kind = self._kind(node)
+                    if kind == "plain":
+                        return f"{owner.qual}.{f.attr}", node, recv, mod if owner.mod is mod or self.same_globals(node, owner.mod, mod) else owner.mod
+                    if kind == "static":
+                        return f"{owner.qual}.{f.attr}", node, None, mod if owner.mod is mod or self.same_globals(node, owner.mod, mod) else owner.mod
+                return None
             if isinstance(recv, ast.Name) and cls is not None and selfname and recv.id == selfname:
                 r = cls.find_method(f.attr)
                 if r is None:
@@ -370,9 +396,10 @@ class Normalizer:
         if _has(hnode.body, (ast.Yield, ast.YieldFrom, ast.Await, ast.Global, ast.Nonlocal)):
             raise Bail("generator/global")
         a = hnode.args
-        if a.vararg or a.kwarg or any(isinstance(x, ast.Starred) for x in call.args) or any(k.arg is None for k in call.keywords):
+        if a.kwarg or any(isinstance(x, ast.Starred) for x in call.args) or any(k.arg is None for k in call.keywords):
             raise Bail("star arguments")
         params = [x.arg for x in a.posonlyargs + a.args]
+        n_pos = len(params)
         defaults = dict(zip(params[len(params) - len(a.defaults):], a.defaults))
         for k, d in zip(a.kwonlyargs, a.kw_defaults):
             params.append(k.arg)
@@ -387,7 +414,12 @@ class Normalizer:
                 raise Bail("no self parameter")
             bind[params[0]] = first
             params = params[1:]
-        if len(args) > len(params):
+            n_pos -= 1
+        if a.vararg is not None:
+            # `*rest` receives the surplus positional arguments as a tuple
+            bind[a.vararg.arg] = ast.Tuple(elts=args[n_pos:], ctx=ast.Load())
+            args = args[:n_pos]
+        if len(args) > n_pos:
             raise Bail("too many arguments")
         for p, v in zip(params, args):
             bind[p] = v
@@ -414,7 +446,7 @@ class Normalizer:
         for p, v in bind.items():
             if p == keep and isinstance(v, ast.Name) and v.id == p:
                 continue          # identity binding: the caller's variable of the same name carries the value in
-            if p not in stored and (_is_simple(v) or (uses.get(p, 0) <= 1 and not _has(v, ast.Call))):
+            if p not in stored and (_is_simple(v) or _simple_val(v) or (uses.get(p, 0) <= 1 and not _has(v, ast.Call))):
                 loads[p] = v
                 continue
             new = p if p not in caller_names else f"{p}__i{tag}"
@@ -428,6 +460,15 @@ class Normalizer:
                 renames[name] = f"{name}__i{tag}"
         sub = _Subst(loads, renames)
         body = [sub.visit(s) for s in body]
+        if _has(body, (ast.For,)) and _has(body, ast.Return):
+            # a loop over a table that came in as an argument is a literal table now: unrolling it first lets the early returns
+            # inside it be eliminated like any other
+            tmpfn = ast.FunctionDef(name="__inl", args=ast.arguments(posonlyargs=[], args=[], vararg=None, kwonlyargs=[], kw_defaults=[],
+                                                                       kwarg=None, defaults=[]), body=body, decorator_list=[], returns=None,
+                                    type_comment=None, type_params=[], lineno=getattr(hnode, "lineno", 1), col_offset=0)
+            ast.fix_missing_locations(tmpfn)
+            spelling(tmpfn)
+            body = tmpfn.body
         single = None
         if len(body) == 1 and isinstance(body[0], ast.Return) and body[0].value is not None and not prelude:
             single = body[0].value
@@ -445,6 +486,8 @@ class Normalizer:
             return [s.value] if s.value is not None else []
         if isinstance(s, ast.If):
             return [s.test]
+        if isinstance(s, ast.While):
+            return [s.test]           # only one-expression helpers are substituted there (splice refuses anything else)
         if isinstance(s, ast.For):
             return [s.iter]
         if isinstance(s, ast.With):
@@ -486,8 +529,21 @@ class Normalizer:
         if isinstance(s, ast.Try):
             for h in s.handlers:
                 h.body = self.rewrite_block(h.body, fctx)
+        if isinstance(s, (ast.FunctionDef, ast.AsyncFunctionDef)) and fctx.get("depth", 0) < 2:
+            # a closure of the function: its calls of new helpers are inlined as well (`self` and the enclosing locals are its
+            # free variables, so the same bindings apply); its own parameters and locals shadow the enclosing names
+            inner = dict(fctx, names=set(fctx["names"]) | _locals_of(s), depth=fctx.get("depth", 0) + 1)
+            shadow = _locals_of(s)
+            if fctx["self"] is None or fctx["self"] not in shadow:
+                s.body = self.rewrite_block(s.body, inner)
+                fctx["budget"] = inner["budget"]
+            return [s]
         if isinstance(s, (ast.FunctionDef, ast.AsyncFunctionDef, ast.ClassDef)):
             return [s]
+        if isinstance(s, ast.For) and isinstance(s.iter, ast.Call) and not s.orelse:
+            g = self.inline_generator(s, fctx)
+            if g is not None:
+                return self.rewrite_block(g, fctx)
         pre = []
         for _ in range(8):
             site = self.find_site(s, fctx)
@@ -527,6 +583,7 @@ class Normalizer:
                     if all(mentions):
                         # `x = h(..)` / `x = h(x)` with the parameter also called x: the callee's x IS the target
                         keep = tname
+                self.ensure_normalized(hq, hnode, fctx)
                 prelude, body, single = self.instantiate(c, hq, hnode, first, fctx["names"], keep)
                 res = self.splice(s, c, prelude, body, single, fctx, hq)
             except Bail as e:
@@ -547,6 +604,59 @@ class Normalizer:
             fctx["stack"].pop()
             s = res[1]
         return pre + [s]
+
+    def inline_generator(self, s, fctx):
+        """G1: `for T in gen(args): BODY` with gen a NEW generator function whose yields are plain `yield E` statements and which
+        has no `return`: the generator's body with every `yield E` replaced by `T = E; BODY` (BODY without break/continue)."""
+        r = self.resolve(s.iter, fctx["mod"], fctx["cls"], fctx["self"])
+        if r is None:
+            return None
+        hq, hnode, first, hmod = r
+        if not self.is_new_function(hq) or hq in fctx["stack"] or hmod is not fctx["mod"] or fctx["budget"] <= 0:
+            return None
+        body0 = _strip_doc(hnode.body)
+        ys = [n for n in ast.walk(hnode) if isinstance(n, (ast.Yield, ast.YieldFrom))]
+        if not ys or any(isinstance(n, ast.YieldFrom) for n in ys) or _has(body0, (ast.Return, ast.Await, ast.Global, ast.Nonlocal)):
+            return None
+        stmt_yields = [n for n in ast.walk(hnode) if isinstance(n, ast.Expr) and isinstance(n.value, ast.Yield)]
+        if len(stmt_yields) != len(ys) or any(y.value is None for y in ys):
+            return None
+        own = []
+        todo = list(s.body)
+        while todo:
+            n = todo.pop()
+            if isinstance(n, (ast.For, ast.While, ast.FunctionDef, ast.AsyncFunctionDef, ast.Lambda, ast.ClassDef)):
+                continue
+            own.append(n)
+            todo.extend(ast.iter_child_nodes(n))
+        if any(isinstance(n, (ast.Break, ast.Continue)) for n in own):
+            return None
+        fake = copy.deepcopy(hnode)
+        for n in ast.walk(fake):
+            if isinstance(n, ast.Expr) and isinstance(n.value, ast.Yield):
+                n.value = ast.copy_location(ast.Call(func=ast.Name(id="__yield__", ctx=ast.Load()), args=[n.value.value], keywords=[]), n.value)
+        try:
+            self.ensure_normalized(hq, hnode, fctx)
+            prelude, body, _single = self.instantiate(s.iter, hq, fake, first, fctx["names"])
+        except Bail as e:
+            self.bailed.append((fctx["qual"], hq, str(e)))
+            return None
+        fctx["names"] |= _stored_names(prelude) | _stored_names(body)
+
+        class Y(ast.NodeTransformer):
+            def visit_Expr(self_, n):
+                if isinstance(n.value, ast.Call) and isinstance(n.value.func, ast.Name) and n.value.func.id == "__yield__":
+                    bind = ast.Assign(targets=[copy.deepcopy(s.target)], value=n.value.args[0], lineno=n.lineno)
+                    return [ast.copy_location(bind, n)] + [copy.deepcopy(b) for b in s.body]
+                return n
+        out = []
+        for b in prelude + body:
+            r_ = Y().visit(b)
+            out.extend(r_ if isinstance(r_, list) else [r_])
+        fctx["budget"] -= 1
+        self.log.append((fctx["qual"], hq, getattr(s, "lineno", 0)))
+        fctx["inlined"].add(hq)
+        return [self._mark(ast.fix_missing_locations(x), hq) for x in out]
 
     def splice(self, s, c, prelude, body, single, fctx, hq):
         """-> (statements before, remaining statement or None)"""
@@ -624,8 +734,28 @@ class Normalizer:
             out.extend(self.rewrite_stmt(s, fctx))
         return out
 
+    def ensure_normalized(self, hq, hnode, fctx):
+        """a helper is itself brought to normal form (its own new helpers inlined) before its body is copied into a caller"""
+        done = self.__dict__.setdefault("_done", set())
+        if hq in done or hq in fctx["stack"]:
+            return
+        fi = self.repo.funcs.get(hq)
+        if fi is None or fi.node is not hnode:
+            return
+        saved = (getattr(self, "_local_defs", {}), getattr(self, "_nested_quals", set()), getattr(self, "_record_locals", {}))
+        try:
+            self.normalize_function(fi.mod, fi.cls, fi.node, hq)
+        except RecursionError:
+            pass
+        finally:
+            self._local_defs, self._nested_quals, self._record_locals = saved
+
     # ---------------------------------------------------------------- drivers
     def normalize_function(self, mod, cls, fn, qual):
+        done = self.__dict__.setdefault("_done", set())
+        if qual in done:
+            return set()
+        done.add(qual)
         a = fn.args
         params = [x.arg for x in a.posonlyargs + a.args]
         selfname = params[0] if (cls is not None and params and self._kind(fn) in ("plain", "other", "class")) else None
@@ -634,6 +764,19 @@ class Normalizer:
         # nested function definitions of this function (closures): a NEW one is transparent like any new helper; its free
         # variables are the enclosing function's own names, so no renaming is needed for them
         self._local_defs, self._nested_quals = {}, set()
+        # locals bound exactly once, to the construction of a NEW record class
+        from . import records as _rec
+        self._record_locals = {}
+        if _rec.RECORDS is not None:
+            st_count = {}
+            for n in ast.walk(fn):
+                if isinstance(n, ast.Name) and isinstance(n.ctx, (ast.Store, ast.Del)):
+                    st_count[n.id] = st_count.get(n.id, 0) + 1
+            for n in ast.walk(fn):
+                if isinstance(n, ast.Assign) and len(n.targets) == 1 and isinstance(n.targets[0], ast.Name) and st_count.get(n.targets[0].id) == 1:
+                    inf = _rec.RECORDS.info_of_call(n.value)
+                    if inf is not None:
+                        self._record_locals[n.targets[0].id] = inf
         for n in ast.walk(fn):
             if n is not fn and isinstance(n, (ast.FunctionDef, ast.AsyncFunctionDef)):
                 q = f"{qual}.{n.name}"
@@ -807,6 +950,9 @@ def apply(repo):
     # iterate to a fixpoint over a bounded number of rounds so that helpers calling helpers are expanded.
     mconst_cache = {}
     nz.spelling_changes = 0
+    from . import records as _records
+    _records.RECORDS = _records.Records(repo, inv)
+    nz.records = sorted(k for k, v in _records.RECORDS.names.items() if v is not None)
     # D0: match statements and assignment expressions become if-chains and plain assignments before anything else
     from .desugar import Desugar, desugar
     dz = Desugar()
@@ -825,7 +971,7 @@ def apply(repo):
         for fi in list(repo.funcs.values()):
             if id(fi.node) not in seen0:
                 seen0.add(id(fi.node))
-                nz.spelling_changes += spelling(fi.node)     # comprehensions become loops before helpers are inlined into them
+                nz.spelling_changes += spelling(fi.node, fi.cls)     # comprehensions become loops before helpers are inlined into them
     for fi in list(repo.funcs.values()):
         mod, cls = fi.mod, fi.cls
         try:
@@ -876,29 +1022,34 @@ def apply(repo):
                 pass
         nz.dropped.append(hq)
     nz.alias_subst = 0
-    if os.environ.get("BSA_ALIAS", "1") != "0":
-        seen = set()
-        for fi in repo.funcs.values():
-            if id(fi.node) in seen:
-                continue
-            seen.add(id(fi.node))
-            nz.spelling_changes += spelling(fi.node)
-            k = propagate_aliases(fi.node)
-            nz.alias_subst += k
-            if k:
-                nz.spelling_changes += spelling(fi.node)      # literals moved into place may enable U1/U3/U5
-            k2 = propagate_single_use(fi.node)
-            nz.alias_subst += k2
-            if k2:
-                nz.spelling_changes += spelling(fi.node)      # a dict literal moved into `f(**{..})` becomes keywords (U15)
     nz.shape_changes = 0
-    if os.environ.get("BSA_SHAPE", "1") != "0":
-        seen = set()
-        for fi in repo.funcs.values():
-            if id(fi.node) in seen:
-                continue
-            seen.add(id(fi.node))
-            nz.shape_changes += shape(fi.node)
+    do_alias = os.environ.get("BSA_ALIAS", "1") != "0"
+    do_shape = os.environ.get("BSA_SHAPE", "1") != "0"
+    seen = set()
+    for fi in repo.funcs.values():
+        if id(fi.node) in seen:
+            continue
+        seen.add(id(fi.node))
+        # spelling / propagation / shape feed each other (a guard clause turned into if/else exposes a flag hand-over, a
+        # propagated record exposes a field access ...): repeated until a round changes only the shape or nothing
+        for round_ in range(4):
+            changed = 0
+            if do_alias:
+                changed += spelling(fi.node, fi.cls)
+                k0 = split_live_ranges(fi.node)
+                k = propagate_aliases(fi.node)
+                nz.alias_subst += k0 + k
+                if k or k0:
+                    changed += k + k0 + spelling(fi.node, fi.cls)      # literals moved into place may enable U1/U3/U5
+                k2 = propagate_single_use(fi.node)
+                nz.alias_subst += k2
+                if k2:
+                    changed += k2 + spelling(fi.node, fi.cls)      # a dict literal moved into `f(**{..})` becomes keywords (U15)
+            nz.spelling_changes += changed
+            sh = shape(fi.node) if do_shape else 0
+            nz.shape_changes += sh
+            if not (changed or sh) or not do_alias:
+                break
     return nz
 
 
@@ -1098,6 +1249,96 @@ def _is_pure_isinstance(e):
             _chain_text(e.args[1]) is not None or (isinstance(e.args[1], ast.Tuple) and all(_chain_text(x) is not None for x in e.args[1].elts)))
 
 
+def split_live_ranges(fn):
+    """P4: a local that is plainly re-assigned at the top level of one block (`x = a; use(x); x = b; use(x)`, typically an unrolled
+    loop variable or a re-used temporary) gets a fresh name per assignment, except for the last one: every definition then has
+    one value and the single-assignment passes apply to it."""
+    counter = [0]
+    n_split = 0
+    params = {a.arg for a in fn.args.posonlyargs + fn.args.args + fn.args.kwonlyargs}
+
+    def stores_nested(stmt, name, top=True):
+        for n in ast.walk(stmt):
+            if isinstance(n, ast.Name) and n.id == name and isinstance(n.ctx, (ast.Store, ast.Del)):
+                if top and isinstance(stmt, ast.Assign) and len(stmt.targets) == 1 and n is stmt.targets[0]:
+                    continue
+                return True
+            if isinstance(n, (ast.Global, ast.Nonlocal)) and name in n.names:
+                return True
+        return False
+
+    def block(stmts):
+        nonlocal n_split
+        defs = {}
+        for i, st in enumerate(stmts):
+            if isinstance(st, ast.Assign) and len(st.targets) == 1 and isinstance(st.targets[0], ast.Name):
+                defs.setdefault(st.targets[0].id, []).append(i)
+        for name, idx in defs.items():
+            if len(idx) < 2 or name in params:
+                continue
+            if any(stores_nested(st, name) for st in stmts):
+                continue
+            if any(isinstance(n, (ast.Lambda, ast.FunctionDef, ast.AsyncFunctionDef)) and any(
+                    isinstance(x, ast.Name) and x.id == name for x in ast.walk(n)) for st in stmts for n in ast.walk(st)):
+                continue
+            for m in range(len(idx) - 1):
+                counter[0] += 1
+                new = f"{name}__s{counter[0]}"
+                ren = _RenameAll(name, new)
+                d0, d1 = idx[m], idx[m + 1]
+                stmts[d0].targets[0] = ast.copy_location(ast.Name(id=new, ctx=ast.Store()), stmts[d0].targets[0])
+                for j in range(d0 + 1, d1):
+                    stmts[j] = ren.visit(stmts[j])
+                stmts[d1].value = ren.visit(stmts[d1].value)
+                n_split += 1
+        for st in stmts:
+            for fld in ("body", "orelse", "finalbody"):
+                b = getattr(st, fld, None)
+                if isinstance(b, list) and b and isinstance(b[0], ast.stmt) and not isinstance(st, (ast.FunctionDef, ast.AsyncFunctionDef, ast.ClassDef)):
+                    block(b)
+            if isinstance(st, ast.Try):
+                for h in st.handlers:
+                    block(h.body)
+    block(fn.body)
+    return n_split
+
+
+class _RenameAll(ast.NodeTransformer):
+    def __init__(self, old, new):
+        self.old, self.new = old, new
+
+    def visit_Name(self, n):
+        if n.id == self.old:
+            return ast.copy_location(ast.Name(id=self.new, ctx=n.ctx), n)
+        return n
+
+
+def _record_value_of_stable_names(e, stores, params, attr_stores):
+    from . import records
+    R = records.RECORDS
+    if R is None or R.info_of_call(e) is None or R.info_of_call(e).bind(e) is None:
+        return False
+    for a in list(e.args) + [k.value for k in e.keywords]:
+        if isinstance(a, ast.Constant):
+            continue
+        if isinstance(a, ast.Call):
+            if not _record_value_of_stable_names(a, stores, params, attr_stores):
+                return False
+            continue
+        if _has(a, (ast.Call, ast.Lambda, ast.NamedExpr, ast.Await, ast.Yield, ast.YieldFrom, ast.Subscript)):
+            return False
+        for n in ast.walk(a):
+            if isinstance(n, ast.Name):
+                k = stores.get(n.id, 0)
+                if not (k == 0 or (k == 1 and n.id not in params)):
+                    return False
+            if isinstance(n, ast.Attribute):
+                t = _chain_text(n)
+                if t is None or any(t == x or x.startswith(t + ".") or t.startswith(x + ".") for x in attr_stores):
+                    return False
+    return True
+
+
 def propagate_aliases(fn):
     params = {a.arg for a in fn.args.posonlyargs + fn.args.args + fn.args.kwonlyargs}
     if fn.args.vararg:
@@ -1119,6 +1360,7 @@ def propagate_aliases(fn):
         elif isinstance(n, ast.ExceptHandler) and n.name:
             stores[n.name] = stores.get(n.name, 0) + 1
     cands = {}
+    deep = set()
 
     def scan(stmts, depth_ok):
         for i, s in enumerate(stmts):
@@ -1168,6 +1410,29 @@ def propagate_aliases(fn):
                 if free_ok and uses_all and uses_later == uses_all:
                     cands[name] = (s.value, later)
             elif isinstance(s, ast.Assign) and len(s.targets) == 1 and isinstance(s.targets[0], ast.Name) \
+                    and isinstance(s.value, ast.Call) and stores.get(s.targets[0].id) == 1 and s.targets[0].id not in params \
+                    and _record_value_of_stable_names(s.value, stores, params, attr_stores):
+                # P5r: a local bound once to a record construction over names/attributes that do not change afterwards
+                name = s.targets[0].id
+                later = stmts[i + 1:]
+                uses_later = sum(1 for t in later for n in ast.walk(t) if isinstance(n, ast.Name) and n.id == name and isinstance(n.ctx, ast.Load))
+                uses_all = sum(1 for n in ast.walk(fn) if isinstance(n, ast.Name) and n.id == name and isinstance(n.ctx, ast.Load))
+                if uses_all and uses_later == uses_all:
+                    cands[name] = (s.value, later)
+                    if all(stores.get(n.id, 0) == 0 for n in ast.walk(s.value) if isinstance(n, ast.Name)):
+                        deep.add(name)        # nothing it mentions is ever rebound: also valid inside closures that run later
+            elif isinstance(s, ast.Assign) and len(s.targets) == 1 and isinstance(s.targets[0], ast.Name) \
+                    and isinstance(s.value, ast.Name) and s.value.id != s.targets[0].id \
+                    and stores.get(s.targets[0].id) == 1 and s.targets[0].id not in params \
+                    and (stores.get(s.value.id, 0) == 1 and s.value.id not in params or stores.get(s.value.id, 0) == 0 and s.value.id in params):
+                # P5c: `y = x` with x and y each bound once: y is another name for x
+                name = s.targets[0].id
+                later = stmts[i + 1:]
+                uses_later = sum(1 for t in later for n in ast.walk(t) if isinstance(n, ast.Name) and n.id == name and isinstance(n.ctx, ast.Load))
+                uses_all = sum(1 for n in ast.walk(fn) if isinstance(n, ast.Name) and n.id == name and isinstance(n.ctx, ast.Load))
+                if uses_all and uses_later == uses_all:
+                    cands[name] = (s.value, later)
+            elif isinstance(s, ast.Assign) and len(s.targets) == 1 and isinstance(s.targets[0], ast.Name) \
                     and isinstance(s.value, ast.Attribute):
                 name = s.targets[0].id
                 chain = _chain_text(s.value)
@@ -1211,6 +1476,10 @@ def propagate_aliases(fn):
                 return n
 
             def visit_FunctionDef(self, n):
+                if name in deep:
+                    shadow = _locals_of(n)
+                    if name not in shadow and not any(isinstance(x, ast.Name) and x.id in shadow for x in ast.walk(value)):
+                        n.body = [self.visit(b) for b in n.body]
                 return n
         for i, t in enumerate(later):
             later[i] = ast.fix_missing_locations(R().visit(t))
@@ -1236,6 +1505,16 @@ def propagate_aliases(fn):
 _SIMPLE_ELT = (ast.Name, ast.Constant, ast.Attribute)
 
 
+def _simple_val(e):
+    """a value that may be duplicated: a name, constant, attribute chain - or a construction of a NEW record class from such"""
+    if isinstance(e, _SIMPLE_ELT):
+        return True
+    from . import records
+    R = records.RECORDS
+    return R is not None and R.is_value(e, lambda v: isinstance(v, _SIMPLE_ELT) or (
+        isinstance(v, ast.BinOp) and not _has(v, ast.Call)))
+
+
 class _Rename(ast.NodeTransformer):
     def __init__(self, name, value):
         self.name, self.value = name, value
@@ -1255,7 +1534,7 @@ class Spelling(ast.NodeTransformer):
         self.generic_visit(n)
         # U20: zip(T1, .., Tk) / enumerate(T) over literal tuples of simple elements -> the literal tuple of rows
         if isinstance(n.func, ast.Name) and n.func.id in ("zip", "enumerate") and not n.keywords and n.args \
-                and all(isinstance(a, (ast.Tuple, ast.List)) and all(isinstance(e, _SIMPLE_ELT) for e in a.elts) for a in n.args[:1 if n.func.id == "enumerate" else None]):
+                and all(isinstance(a, (ast.Tuple, ast.List)) and all(_simple_val(e) for e in a.elts) for a in n.args[:1 if n.func.id == "enumerate" else None]):
             if n.func.id == "zip":
                 k = min(len(a.elts) for a in n.args)
                 if k <= 12:
@@ -1302,7 +1581,7 @@ class Spelling(ast.NodeTransformer):
                 and isinstance(n.args[0], (ast.GeneratorExp, ast.ListComp)) and len(n.args[0].generators) == 1:
             g = n.args[0].generators[0]
             if isinstance(g.target, ast.Name) and not g.ifs and not g.is_async and isinstance(g.iter, (ast.Tuple, ast.List)) \
-                    and 1 <= len(g.iter.elts) <= 8 and all(isinstance(e, _SIMPLE_ELT) for e in g.iter.elts):
+                    and 1 <= len(g.iter.elts) <= 8 and all(_simple_val(e) for e in g.iter.elts):
                 vals = [_Rename(g.target.id, e).visit(copy.deepcopy(n.args[0].elt)) for e in g.iter.elts]
                 self.changes += 1
                 op = ast.Or() if n.func.id == "any" else ast.And()
@@ -1353,7 +1632,7 @@ class Spelling(ast.NodeTransformer):
         rows = []
         for e in g.iter.elts:
             vals = [e] if isinstance(g.target, ast.Name) else list(e.elts) if isinstance(e, ast.Tuple) else None
-            if vals is None or len(vals) != len(names) or not all(isinstance(v, _SIMPLE_ELT) for v in vals):
+            if vals is None or len(vals) != len(names) or not all(_simple_val(v) for v in vals):
                 return None
             rows.append(vals)
         return names, rows
@@ -1373,8 +1652,9 @@ class Spelling(ast.NodeTransformer):
             return n
         names, rows = r
         self.changes += 1
-        return ast.fix_missing_locations(ast.copy_location(ast.Dict(keys=[self._inst(n.key, names, v) for v in rows],
-                                                                    values=[self._inst(n.value, names, v) for v in rows]), n))
+        new = ast.fix_missing_locations(ast.copy_location(ast.Dict(keys=[self._inst(n.key, names, v) for v in rows],
+                                                                   values=[self._inst(n.value, names, v) for v in rows]), n))
+        return self.generic_visit(new)       # the instantiated keys / values may fold further (record fields)
 
     def visit_ListComp(self, n):
         self.generic_visit(n)
@@ -1383,7 +1663,23 @@ class Spelling(ast.NodeTransformer):
             return n
         names, rows = r
         self.changes += 1
-        return ast.fix_missing_locations(ast.copy_location(ast.List(elts=[self._inst(n.elt, names, v) for v in rows], ctx=ast.Load()), n))
+        return self.generic_visit(ast.fix_missing_locations(ast.copy_location(
+            ast.List(elts=[self._inst(n.elt, names, v) for v in rows], ctx=ast.Load()), n)))
+
+    def visit_Attribute(self, n):
+        # R1 / R2: a field or read-only property of a record construction
+        self.generic_visit(n)
+        if isinstance(n.ctx, ast.Load) and isinstance(n.value, ast.Call):
+            from . import records
+            from .desugar import is_pure
+            R = records.RECORDS
+            if R is not None and R.info_of_call(n.value) is not None and all(
+                    is_pure(a) for a in list(n.value.args) + [k.value for k in n.value.keywords]):
+                rep = R.field(n.value, n.attr)
+                if rep is not None:
+                    self.changes += 1
+                    return self.visit(ast.fix_missing_locations(ast.copy_location(rep, n)))
+        return n
 
     def visit_Tuple(self, n):
         # U19: (a, *(b, c)) -> (a, b, c)
@@ -1403,8 +1699,9 @@ class Spelling(ast.NodeTransformer):
         # N3: integer arithmetic between literals
         self.generic_visit(n)
         if isinstance(n.left, ast.Constant) and isinstance(n.right, ast.Constant) and type(n.left.value) is int and type(n.right.value) is int \
-                and isinstance(n.op, (ast.Add, ast.Sub, ast.Mult)):
-            v = {ast.Add: lambda a, b: a + b, ast.Sub: lambda a, b: a - b, ast.Mult: lambda a, b: a * b}[type(n.op)](n.left.value, n.right.value)
+                and isinstance(n.op, (ast.Add, ast.Sub, ast.Mult, ast.LShift)) and not (isinstance(n.op, ast.LShift) and not 0 <= n.right.value < 64):
+            v = {ast.Add: lambda a, b: a + b, ast.Sub: lambda a, b: a - b, ast.Mult: lambda a, b: a * b,
+                 ast.LShift: lambda a, b: a << b}[type(n.op)](n.left.value, n.right.value)
             self.changes += 1
             return ast.copy_location(ast.Constant(value=v), n)
         return n
@@ -1436,6 +1733,26 @@ class Spelling(ast.NodeTransformer):
             v = {ast.Eq: a == b, ast.NotEq: a != b, ast.Lt: a < b, ast.LtE: a <= b, ast.Gt: a > b, ast.GtE: a >= b}[type(n.ops[0])]
             self.changes += 1
             return ast.copy_location(ast.Constant(value=v), n)
+        # N3: identity of two literal singletons
+        if len(n.ops) == 1 and isinstance(n.ops[0], (ast.Is, ast.IsNot)) and isinstance(n.left, ast.Constant) \
+                and isinstance(n.comparators[0], ast.Constant) and (n.left.value is None or n.comparators[0].value is None
+                                                                    or isinstance(n.left.value, bool) and isinstance(n.comparators[0].value, bool)):
+            same = n.left.value is n.comparators[0].value
+            self.changes += 1
+            return ast.copy_location(ast.Constant(value=same if isinstance(n.ops[0], ast.Is) else not same), n)
+        # R4: a record construction is never None
+        if len(n.ops) == 1 and isinstance(n.ops[0], (ast.Is, ast.IsNot)) and isinstance(n.comparators[0], ast.Constant) \
+                and n.comparators[0].value is None and isinstance(n.left, ast.Call):
+            from . import records
+            if records.RECORDS is not None and records.RECORDS.info_of_call(n.left) is not None and not _has(n.left.args, ast.Call):
+                self.changes += 1
+                return ast.copy_location(ast.Constant(value=isinstance(n.ops[0], ast.IsNot)), n)
+        # N5: `self.<method> is [not] None` - a method of the class is never None
+        if len(n.ops) == 1 and isinstance(n.ops[0], (ast.Is, ast.IsNot)) and isinstance(n.comparators[0], ast.Constant) \
+                and n.comparators[0].value is None and isinstance(n.left, ast.Attribute) and isinstance(n.left.value, ast.Name) \
+                and n.left.value.id == "self" and n.left.attr in getattr(self, "methods", ()):
+            self.changes += 1
+            return ast.copy_location(ast.Constant(value=isinstance(n.ops[0], ast.IsNot)), n)
         return self._compare_in(n)
 
     def _compare_in(self, n):
@@ -1491,7 +1808,7 @@ class Spelling(ast.NodeTransformer):
                     if not blk:
                         return False
                     is_sel = lambda b_: isinstance(b_, ast.Assign) and len(b_.targets) == 1 and isinstance(b_.targets[0], ast.Name)
-                    if not (is_sel(blk[-1]) and isinstance(blk[-1].value, _SIMPLE_ELT)) or (
+                    if not (is_sel(blk[-1]) and _simple_val(blk[-1].value)) or (
                             isinstance(nxt, ast.If) and isinstance(strip_not_(nxt.test), ast.Name) and blk[-1].targets[0].id != strip_not_(nxt.test).id):
                         want = strip_not_(nxt.test).id if isinstance(nxt, ast.If) and isinstance(strip_not_(nxt.test), ast.Name) else None
                         for k_ in range(len(blk) - 1, -1, -1):
@@ -1503,7 +1820,7 @@ class Spelling(ast.NodeTransformer):
                                 break
                             if want and any(isinstance(n, ast.Name) and n.id == want for n in ast.walk(b_)):
                                 break
-                    return is_sel(blk[-1]) and isinstance(blk[-1].value, _SIMPLE_ELT)
+                    return is_sel(blk[-1]) and _simple_val(blk[-1].value)
                 strip_not_ = lambda t: t.operand if isinstance(t, ast.UnaryOp) and isinstance(t.op, ast.Not) else t
                 while True:
                     if sel(cur.body):
@@ -1530,7 +1847,8 @@ class Spelling(ast.NodeTransformer):
                 if ok and v and not plain:
                     fn_ = getattr(self, "fn", None)
                     all_loads = sum(1 for n in ast.walk(fn_) if isinstance(n, ast.Name) and n.id == v and isinstance(n.ctx, ast.Load)) if fn_ is not None else -1
-                    ok = all_loads == uses_next and all(isinstance(b[-1].value, ast.Constant) for b in branches) \
+                    ok = all_loads == uses_next and all(isinstance(b[-1].value, ast.Constant) or (
+                        not isinstance(b[-1].value, _SIMPLE_ELT) and _simple_val(b[-1].value)) for b in branches) \
                         and not any(isinstance(n, ast.Name) and n.id == v for b in branches for x in b[:-1] for n in ast.walk(x))
                 if ok and v and uses_next >= 1 and uses_rest == 0 and not any(
                         isinstance(n, ast.Name) and n.id == v and isinstance(n.ctx, ast.Store) for n in ast.walk(nxt)):
@@ -1591,7 +1909,36 @@ class Spelling(ast.NodeTransformer):
             out.extend(self.stmt(s))
         return self.sink_selected(self.merge_dict_building(out))
 
+    @staticmethod
+    def _truth_form(t):
+        """in a truth-value position `b if a else a` is `a and b`, `a if a else b` is `a or b` (the inverse of T2, for a value
+        expression that was inlined into a test)"""
+        if isinstance(t, ast.IfExp):
+            a, b, c = t.test, Spelling._truth_form(t.body), Spelling._truth_form(t.orelse)
+            if ast.dump(a) == ast.dump(t.orelse):
+                return ast.copy_location(ast.BoolOp(op=ast.And(), values=[a, b]), t)
+            if ast.dump(a) == ast.dump(t.body):
+                return ast.copy_location(ast.BoolOp(op=ast.Or(), values=[a, c]), t)
+            return t
+        if isinstance(t, ast.UnaryOp) and isinstance(t.op, ast.Not):
+            t.operand = Spelling._truth_form(t.operand)
+            return t
+        if isinstance(t, ast.BoolOp):
+            t.values = [Spelling._truth_form(v) for v in t.values]
+            # flatten nested same-operator chains
+            flat = []
+            for v in t.values:
+                if isinstance(v, ast.BoolOp) and type(v.op) is type(t.op):
+                    flat.extend(v.values)
+                else:
+                    flat.append(v)
+            t.values = flat
+            return t
+        return t
+
     def stmt(self, s):
+        if isinstance(s, (ast.If, ast.While)) and _has(s.test, ast.IfExp):
+            s.test = ast.fix_missing_locations(self._truth_form(s.test))
         # N4: `if True:` / `if False:` (a parameter replaced by the constant it was called with) -> the selected branch
         if isinstance(s, ast.If) and isinstance(s.test, ast.Constant) and isinstance(s.test.value, bool):
             self.changes += 1
@@ -1602,6 +1949,26 @@ class Spelling(ast.NodeTransformer):
             self.changes += 1
             mk = lambda c: ast.Assign(targets=[copy.deepcopy(s.targets[0])], value=ast.Constant(value=c), lineno=s.lineno)
             return [ast.fix_missing_locations(ast.copy_location(ast.If(test=s.value, body=[mk(True)], orelse=[mk(False)]), s))]
+        # R0: r = X(f(), g())  ->  r__0 = f(); r__1 = g(); r = X(r__0, r__1)   (the record is then a value over plain names)
+        if isinstance(s, ast.Assign) and len(s.targets) == 1 and isinstance(s.targets[0], ast.Name) and isinstance(s.value, ast.Call):
+            from . import records as _rec2
+            R2 = _rec2.RECORDS
+            if R2 is not None and R2.info_of_call(s.value) is not None and not any(isinstance(a, ast.Starred) for a in s.value.args) \
+                    and any(_has(a, ast.Call) and R2.info_of_call(a) is None for a in list(s.value.args) + [k.value for k in s.value.keywords]):
+                pre = []
+                base = s.targets[0].id
+                for i_, a in enumerate(s.value.args):
+                    if _has(a, ast.Call) and R2.info_of_call(a) is None:
+                        tmp = f"{base}__r{i_}"
+                        pre.append(ast.Assign(targets=[ast.Name(id=tmp, ctx=ast.Store())], value=a, lineno=s.lineno))
+                        s.value.args[i_] = ast.Name(id=tmp, ctx=ast.Load())
+                for k in s.value.keywords:
+                    if k.arg is not None and _has(k.value, ast.Call) and R2.info_of_call(k.value) is None:
+                        tmp = f"{base}__r{k.arg}"
+                        pre.append(ast.Assign(targets=[ast.Name(id=tmp, ctx=ast.Store())], value=k.value, lineno=s.lineno))
+                        k.value = ast.Name(id=tmp, ctx=ast.Load())
+                self.changes += 1
+                return [ast.fix_missing_locations(ast.copy_location(x, s)) for x in pre] + [ast.fix_missing_locations(s)]
         # T2: `a or b` / `a and b` used for its VALUE (an argument, an assigned or returned value) with a simple first operand
         #     -> `a if a else b` / `b if a else a`, which T1 then turns into an if statement
         if isinstance(s, (ast.Assign, ast.AugAssign, ast.Return, ast.Expr)) and s.value is not None:
@@ -1687,6 +2054,15 @@ class Spelling(ast.NodeTransformer):
                 self.changes += 1
                 return [ast.fix_missing_locations(ast.copy_location(ast.Assign(targets=[t], value=e, lineno=s.lineno), s))
                         for t, e in zip(s.targets[0].elts, s.value.elts)]
+        # U4r: a, b = X(p, q) for a NEW record class X -> a, b = (p, q)   (a NamedTuple unpacks to its fields in order)
+        if isinstance(s, ast.Assign) and len(s.targets) == 1 and isinstance(s.targets[0], (ast.Tuple, ast.List)) and isinstance(s.value, ast.Call):
+            from . import records as _rec3
+            inf = _rec3.RECORDS.info_of_call(s.value) if _rec3.RECORDS is not None else None
+            b_ = inf.bind(s.value) if inf is not None else None
+            if b_ is not None and len(inf.fields) == len(s.targets[0].elts):
+                s.value = ast.copy_location(ast.Tuple(elts=[b_[f_] for f_ in inf.fields], ctx=ast.Load()), s.value)
+                self.changes += 1
+                return self.block([ast.fix_missing_locations(s)])
         # U4b: the same with attribute targets or a target that is read by a later element: the assignments are emitted in an
         # order in which no value reads a target bound before it (call-free values, so evaluation order is immaterial)
         if isinstance(s, ast.Assign) and len(s.targets) == 1 and isinstance(s.targets[0], (ast.Tuple, ast.List)) \
@@ -1710,6 +2086,47 @@ class Spelling(ast.NodeTransformer):
                     self.changes += 1
                     return [ast.fix_missing_locations(ast.copy_location(
                         ast.Assign(targets=[s.targets[0].elts[k]], value=s.value.elts[k], lineno=s.lineno), s)) for k in perm]
+        # U21: a + b"".join(E for v in it [if c]) + c  (returned or assigned to a name)  ->  acc = a; for v in it: acc += E; acc += c
+        if isinstance(s, (ast.Return, ast.Assign)) and s.value is not None and (isinstance(s, ast.Return) or (
+                len(s.targets) == 1 and isinstance(s.targets[0], ast.Name))):
+            parts = []
+
+            def flat_add(e):
+                if isinstance(e, ast.BinOp) and isinstance(e.op, ast.Add):
+                    flat_add(e.left)
+                    flat_add(e.right)
+                else:
+                    parts.append(e)
+            flat_add(s.value)
+
+            def is_join(e):
+                return isinstance(e, ast.Call) and isinstance(e.func, ast.Attribute) and e.func.attr == "join" and len(e.args) == 1 \
+                    and not e.keywords and isinstance(e.func.value, ast.Constant) and e.func.value.value in (b"", "") \
+                    and isinstance(e.args[0], (ast.GeneratorExp, ast.ListComp)) and len(e.args[0].generators) == 1 \
+                    and not e.args[0].generators[0].is_async
+            if sum(1 for e in parts if is_join(e)) == 1 and not any(_has(e, (ast.NamedExpr, ast.Await, ast.Yield, ast.YieldFrom)) for e in parts):
+                acc = s.targets[0].id if isinstance(s, ast.Assign) else "__joined"
+                if not (isinstance(s, ast.Assign) and any(isinstance(n, ast.Name) and n.id == acc for e in parts for n in ast.walk(e))):
+                    out, started = [], False
+                    for e in parts:
+                        if is_join(e):
+                            if not started:
+                                out.append(ast.Assign(targets=[ast.Name(id=acc, ctx=ast.Store())], value=ast.Constant(value=e.func.value.value), lineno=s.lineno))
+                                started = True
+                            g = e.args[0].generators[0]
+                            body = [ast.AugAssign(target=ast.Name(id=acc, ctx=ast.Store()), op=ast.Add(), value=e.args[0].elt)]
+                            for c_ in reversed(g.ifs):
+                                body = [ast.If(test=c_, body=body, orelse=[])]
+                            out.append(ast.For(target=g.target, iter=g.iter, body=body, orelse=[], lineno=s.lineno))
+                        elif not started:
+                            out.append(ast.Assign(targets=[ast.Name(id=acc, ctx=ast.Store())], value=e, lineno=s.lineno))
+                            started = True
+                        else:
+                            out.append(ast.AugAssign(target=ast.Name(id=acc, ctx=ast.Store()), op=ast.Add(), value=e))
+                    if isinstance(s, ast.Return):
+                        out.append(ast.Return(value=ast.Name(id=acc, ctx=ast.Load())))
+                    self.changes += 1
+                    return [ast.fix_missing_locations(ast.copy_location(x, s)) for x in out]
         # U16: d.update({K: V for t in it [if c]})  ->  for t in it: [if c:] d[K] = V   (it is snapshotted with list() when it reads d:
         #      the comprehension is complete before update() stores anything)
         if isinstance(s, ast.Expr) and isinstance(s.value, ast.Call) and isinstance(s.value.func, ast.Attribute) and s.value.func.attr == "update" \
@@ -1797,7 +2214,7 @@ class Spelling(ast.NodeTransformer):
                 rows = []
                 for e in g.iter.elts:
                     vals = [e] if isinstance(g.target, ast.Name) else list(e.elts) if isinstance(e, ast.Tuple) else None
-                    if names is None or vals is None or len(vals) != len(names) or not all(isinstance(v, _SIMPLE_ELT) for v in vals):
+                    if names is None or vals is None or len(vals) != len(names) or not all(_simple_val(v) for v in vals):
                         rows = None
                         break
                     rows.append(vals)
@@ -1860,7 +2277,7 @@ class Spelling(ast.NodeTransformer):
             rows = []
             for e in s.iter.elts:
                 vals = [e] if isinstance(s.target, ast.Name) else list(e.elts) if isinstance(e, ast.Tuple) else None
-                if names is None or vals is None or len(vals) != len(names) or not all(isinstance(v, _SIMPLE_ELT) for v in vals):
+                if names is None or vals is None or len(vals) != len(names) or not all(_simple_val(v) for v in vals):
                     rows = None
                     break
                 rows.append(vals)
@@ -1881,8 +2298,8 @@ class Spelling(ast.NodeTransformer):
         # U1b unroll with a tuple target over a literal table of rows
         if isinstance(s, ast.For) and isinstance(s.target, ast.Tuple) and all(isinstance(t, ast.Name) for t in s.target.elts) and not s.orelse \
                 and isinstance(s.iter, (ast.Tuple, ast.List)) and 1 <= len(s.iter.elts) <= 8 \
-                and all(isinstance(e, ast.Tuple) and len(e.elts) == len(s.target.elts) and all(isinstance(v, _SIMPLE_ELT) for v in e.elts) for e in s.iter.elts) \
-                and not _has(s.body, (ast.Break, ast.Continue, ast.Return)):
+                and all(isinstance(e, ast.Tuple) and len(e.elts) == len(s.target.elts) and all(_simple_val(v) for v in e.elts) for e in s.iter.elts) \
+                and not _has(s.body, (ast.Break, ast.Continue)):
             names = [t.id for t in s.target.elts]
             if not any(isinstance(x, ast.Name) and x.id in names and isinstance(x.ctx, ast.Store) for b in s.body for x in ast.walk(b)):
                 out = []
@@ -1896,8 +2313,8 @@ class Spelling(ast.NodeTransformer):
                 return self.block(out)
         # U1 unroll
         if isinstance(s, ast.For) and isinstance(s.target, ast.Name) and not s.orelse and isinstance(s.iter, (ast.Tuple, ast.List)) \
-                and 1 <= len(s.iter.elts) <= 8 and all(isinstance(e, _SIMPLE_ELT) for e in s.iter.elts) \
-                and not _has(s.body, (ast.Break, ast.Continue, ast.Return)) \
+                and 1 <= len(s.iter.elts) <= 8 and all(_simple_val(e) for e in s.iter.elts) \
+                and not _has(s.body, (ast.Break, ast.Continue)) \
                 and not any(isinstance(x, ast.Name) and x.id == s.target.id and isinstance(x.ctx, ast.Store) for b in s.body for x in ast.walk(b)):
             out = []
             for e in s.iter.elts:
@@ -1942,10 +2359,23 @@ def _bool_locals(fn):
     return {k for k, vs in vals.items() if vs and k not in params and all(ok(v) for v in vs)}
 
 
-def spelling(fn):
+def spelling(fn, cls=None):
     sp = Spelling()
     sp.bool_locals = _bool_locals(fn)
     sp.fn = fn
+    if cls is not None:
+        ms = set()
+        for k in cls.mro():
+            if hasattr(k, "methods"):
+                ms |= {m for m in k.methods if m not in k.props}
+        # an attribute of that name assigned anywhere in the class hierarchy shadows the method: not foldable
+        for k in cls.mro():
+            if hasattr(k, "methods"):
+                for f_ in k.methods.values():
+                    for x in ast.walk(f_):
+                        if isinstance(x, ast.Attribute) and isinstance(x.ctx, ast.Store) and isinstance(x.value, ast.Name) and x.value.id == "self":
+                            ms.discard(x.attr)
+        sp.methods = ms
     fn.body = sp.block(fn.body)
     return sp.changes
 
@@ -1978,6 +2408,29 @@ def propagate_single_use(fn):
                     del stmts[i]
                     n_sub += 1
                     continue
+            # P6c: `x = E` directly followed by a simple statement that reads x exactly once (its only read in the function), with
+            # nothing but pure expressions evaluated before that read -> E moves to the place of the read
+            if isinstance(s, ast.Assign) and len(s.targets) == 1 and isinstance(s.targets[0], ast.Name) \
+                    and isinstance(nxt, (ast.Assign, ast.AugAssign, ast.Return, ast.Expr)) and getattr(nxt, "value", None) is not None \
+                    and not isinstance(s.value, (ast.Yield, ast.YieldFrom, ast.Await, ast.Lambda, ast.Dict, ast.List, ast.ListComp, ast.DictComp,
+                                                 ast.SetComp, ast.GeneratorExp, ast.Constant, ast.Tuple)):
+                name = s.targets[0].id
+                if loads.get(name) == 1 and stores.get(name) == 1 and name not in params and not name.startswith("__inl"):
+                    from .desugar import Desugar as _Dz, is_pure as _pz
+                    occ = [n for n in ast.walk(nxt.value) if isinstance(n, ast.Name) and n.id == name and isinstance(n.ctx, ast.Load)]
+                    in_scope = not any(isinstance(sc, (ast.Lambda, ast.ListComp, ast.SetComp, ast.DictComp, ast.GeneratorExp)) and
+                                       any(o is x for o in occ for x in ast.walk(sc)) for sc in ast.walk(nxt.value))
+                    # (only the plain hand-over `y = x` - a chain of temporaries; named intermediate values are kept, the rules of
+                    # the confirmed tree know them by their roles)
+                    if len(occ) == 1 and in_scope and occ[0] is nxt.value and isinstance(nxt, ast.Assign):
+                        before = _Dz._before(nxt.value, occ[0])
+                        tgt_pure = all(_is_simple(t) for t in (nxt.targets if isinstance(nxt, ast.Assign) else [nxt.target] if isinstance(nxt, ast.AugAssign) else []))
+                        if before is not None and all(_pz(b_) for b_ in before) and tgt_pure and not isinstance(nxt, ast.AugAssign):
+                            _Dz._replace(nxt, "value", occ[0], s.value)
+                            ast.fix_missing_locations(nxt)
+                            del stmts[i]
+                            n_sub += 1
+                            continue
             # P6b: `d = {literal keys: ..}` directly followed by a simple statement whose only use of d is `f(.., **d)` with a
             # simple callee and simple positional arguments -> the literal moves into the call (U15 then names the keywords)
             if isinstance(s, ast.Assign) and len(s.targets) == 1 and isinstance(s.targets[0], ast.Name) and isinstance(s.value, ast.Dict) \
